@@ -1367,6 +1367,193 @@ func (c *apiCase) mixedBatch(lr *listResp, state map[string]string) map[string]s
 	return c.checkBatch("mixed", state, mustFree, mustStay, otherKeys, code, rr, sent, err)
 }
 
+// ---------------------------------------------------------------------------------------------------------------
+// neighbour law: what happens to an entry must not depend on the other entries of the same POST
+
+type nbItem struct {
+	e    entry
+	omit bool // appType field left out (documented default: statefulset)
+}
+
+func (it nbItem) body() json.RawMessage {
+	if it.omit {
+		return withField(it.e.raw, "appType", nil)
+	}
+	return it.e.raw
+}
+
+// neighbourBatches builds batches of 2-6 listed releasable entries of mixed owner kinds (distinct keys) in PRNG order;
+// every statefulset entry independently omits appType with probability 1/2. A second batch forces the adjacency
+// "entry with a non-statefulset appType, immediately followed by a statefulset entry without appType, immediately
+// followed by an entry with appType". Each entry must fare exactly as when posted alone.
+func (c *apiCase) neighbourBatches(state map[string]string) map[string]string {
+	lr, ok := c.fullList()
+	if !ok {
+		return state
+	}
+	var sts, other, rest []entry
+	seenKey := map[string]bool{}
+	for _, i := range c.r.Perm(len(lr.entries)) {
+		e := lr.entries[i]
+		if !c.batchable(e) || state[e.IP] == "" || seenKey[state[e.IP]] {
+			continue
+		}
+		seenKey[state[e.IP]] = true
+		switch {
+		case e.AppType == "statefulset":
+			sts = append(sts, e)
+		case e.AppType != "":
+			other = append(other, e)
+		default:
+			rest = append(rest, e)
+		}
+	}
+	pop := func(l *[]entry) (entry, bool) {
+		if len(*l) == 0 {
+			return entry{}, false
+		}
+		e := (*l)[0]
+		*l = (*l)[1:]
+		return e, true
+	}
+	popAny := func() (nbItem, bool) {
+		// mixed owner kinds: draw from the three classes in PRNG order
+		for _, k := range c.r.Perm(3) {
+			l := []*[]entry{&sts, &other, &rest}[k]
+			if e, ok := pop(l); ok {
+				return nbItem{e: e, omit: e.AppType == "statefulset" && c.r.Intn(2) == 0}, true
+			}
+		}
+		return nbItem{}, false
+	}
+	// batch 1: PRNG order
+	var items []nbItem
+	for n := 2 + c.r.Intn(5); n > 0; n-- {
+		if it, ok := popAny(); ok {
+			items = append(items, it)
+		}
+	}
+	if len(items) >= 2 {
+		state = c.neighbourPost("prng-order", items, state)
+	}
+	// batch 2: forced adjacency  X(with non-statefulset appType) , S(statefulset, appType omitted) , Y(with appType)
+	if len(sts) > 0 && len(other) > 0 {
+		x, _ := pop(&other)
+		sEntry, _ := pop(&sts)
+		triple := []nbItem{{e: x}, {e: sEntry, omit: true}}
+		if y, ok := pop(&other); ok {
+			triple = append(triple, nbItem{e: y})
+		} else if y, ok := pop(&sts); ok {
+			triple = append(triple, nbItem{e: y})
+		}
+		var before, after []nbItem
+		for n := c.r.Intn(4); n > 0 && len(triple)+len(before)+len(after) < 6; n-- {
+			if it, ok := popAny(); ok {
+				if c.r.Intn(2) == 0 {
+					before = append(before, it)
+				} else {
+					after = append(after, it)
+				}
+			}
+		}
+		items = append(append(before, triple...), after...)
+		c.run.Count("api_neighbour_batches_forced_adjacency", 1)
+		state = c.neighbourPost("forced-adjacency", items, state)
+	} else {
+		c.run.Count("api_neighbour_forced_adjacency_impossible", 1)
+	}
+	return state
+}
+
+func (c *apiCase) neighbourPost(tag string, items []nbItem, state map[string]string) map[string]string {
+	var raws []json.RawMessage
+	var layout []string
+	posted := map[string]bool{}
+	adjacency := false
+	for i, it := range items {
+		raws = append(raws, it.body())
+		posted[it.e.IP] = true
+		d := c.slots[it.e.IP].Kind
+		if it.omit {
+			d += "(appType omitted)"
+			c.run.Count("api_neighbour_entries_apptype_omitted_judged", 1)
+		}
+		layout = append(layout, d)
+		if i > 0 {
+			prev := items[i-1]
+			if it.omit && !prev.omit && prev.e.AppType != "" && prev.e.AppType != "statefulset" {
+				c.run.Count("api_neighbour_adjacency_nonsts_then_sts_omitted", 1)
+				adjacency = true
+			}
+			if prev.omit && !it.omit && it.e.AppType != "" {
+				c.run.Count("api_neighbour_adjacency_omitted_then_with_apptype", 1)
+				adjacency = true
+			}
+		}
+	}
+	code, rr, sent, err := c.post(raws...)
+	c.run.Count("api_neighbour_batches", 1)
+	c.run.Count("api_neighbour_batches_"+tag, 1)
+	after := c.dump()
+	w := map[string]interface{}{"batch": "neighbour-" + tag, "layout": layout, "posted": json.RawMessage(sent), "http": code,
+		"response": rr, "err": fmt.Sprint(err)}
+	for _, ch := range diff(state, after) {
+		if posted[ch.IP] && ch.After == "" {
+			continue
+		}
+		w2 := copyW(w)
+		w2["change"] = ch
+		if live(c.slots[ch.IP]) && ch.After == "" {
+			c.violate("release-freed-live-pod-ip-"+c.slots[ch.IP].Kind, fmt.Sprintf("POST freed %s of live pod (key %q)", ch.IP, ch.Before), w2)
+		}
+		c.violate("batch-release-changed-other-ip", fmt.Sprintf("ip %s changed: key %q -> %q", ch.IP, ch.Before, ch.After), w2)
+	}
+	state = after
+	allFreed := true
+	for i, it := range items {
+		s := c.slots[it.e.IP]
+		if state[it.e.IP] == "" {
+			c.run.Count("api_neighbour_released_"+s.Kind, 1)
+			continue
+		}
+		allFreed = false
+		prevKind := "first"
+		if i > 0 {
+			prevKind = c.slots[items[i-1].e.IP].Kind
+		}
+		// the same entry, same form, alone
+		code1, rr1, sent1, err1 := c.post(it.body())
+		w2 := copyW(w)
+		w2["position"] = i
+		w2["entry"] = s
+		w2["apptype_omitted"] = it.omit
+		w2["alone"] = map[string]interface{}{"posted": json.RawMessage(sent1), "http": code1, "response": rr1, "err": fmt.Sprint(err1)}
+		var freedAlone bool
+		state, freedAlone = c.afterPost(state, it.e.IP, "release-changed-other-ip-"+s.Kind+"-alone-after-batch", w2)
+		if freedAlone {
+			c.violate("batch-entry-outcome-depends-on-neighbour-"+s.Kind+"-after-"+prevKind, fmt.Sprintf(
+				"listed releasable entry for ip %s (key %q, appType omitted=%v) at position %d of a POST with %d entries %v was not released (HTTP %d unreleased=%v reasons=%v), the same entry posted alone was released (HTTP %d)",
+				it.e.IP, s.Key, it.omit, i, len(items), layout, code, rr.Unreleased, rr.Reasons, code1), w2)
+		} else {
+			c.violate("batch-release-entry-not-released-"+s.Kind, fmt.Sprintf(
+				"listed releasable entry for ip %s (key %q, appType omitted=%v) was released neither in a batch of %d nor alone: HTTP %d / %d",
+				it.e.IP, s.Key, it.omit, len(items), code, code1), w2)
+		}
+	}
+	if allFreed {
+		if code != 200 || len(rr.Unreleased) != 0 {
+			c.violate("batch-release-status-mismatch", fmt.Sprintf(
+				"all %d entries of the batch were released, but the response is HTTP %d unreleased=%v", len(items), code, rr.Unreleased), w)
+		} else {
+			c.run.Count("api_neighbour_batches_ok", 1)
+			if adjacency {
+				c.run.Nontrivial(fmt.Sprintf("neighbour|%s|%s", tag, strings.Join(layout, ">")))
+			}
+		}
+	}
+	return state
+}
+
 // runAPICase runs one populated IPAM through all API laws.
 func runAPICase(run *evid.Run, idx int) {
 	c := newAPICase(run, idx)
@@ -1424,6 +1611,7 @@ func runAPICase(run *evid.Run, idx int) {
 	// (b) releasable:false stays
 	state = c.unreleasablePosts(l0, state)
 	// batch laws: all releasable entries of one page in ONE request; a mixed batch; on odd cases "everything"
+	state = c.neighbourBatches(state)
 	state = c.pageBatch([]int{2, 3, 7, 10}[c.r.Intn(4)], state)
 	lm, ok := c.fullList()
 	if !ok {
